@@ -12,8 +12,12 @@
 (* against recorded images (Trace_Phys: the model predicts every table of  *)
 (* the image the library writes).                                          *)
 (*                                                                         *)
-(* Not modelled: stream bytes (only lengths and chains), timestamps,       *)
-(* CLSIDs, state bits, colours (always black), I/O errors.                 *)
+(* With TrackData the bytes of every sector are modelled as well (section   *)
+(* "Stream bytes" below): stale bytes survive in released sectors, new      *)
+(* regular sectors are zeroed when allocated, mini sectors are not, and     *)
+(* set_len scrubs what it exposes - InvData / ZeroExposure of MC_Phys.      *)
+(* Not modelled: timestamps, CLSIDs, state bits, colours (always black),   *)
+(* I/O errors (CfbFault).                                                  *)
 (***************************************************************************)
 EXTENDS Naturals, Integers, Sequences, FiniteSets, TLC
 
@@ -26,9 +30,11 @@ CONSTANTS SectorLen,    \* bytes per sector
           DirCount,     \* TRUE: the header counts directory sectors (version 4)
           NameLess(_, _), \* CFB order on names
           NameEq(_, _),   \* equality of names up to case folding
-          ModuloPolicy    \* TRUE: the pinned commit's test for extending the MiniFAT / mini stream
+          ModuloPolicy,   \* TRUE: the pinned commit's test for extending the MiniFAT / mini stream
                           \* chains (trimmed length a multiple of a sector), FALSE: the repaired
                           \* capacity test
+          TrackData,      \* TRUE: the bytes of every sector are part of the state (tiny geometry only)
+          Scrub           \* TRUE: set_len zeroes what it exposes (repaired); FALSE: the pinned commit
 
 DifatPer == FatPer - 1
 FREE   == -1
@@ -55,7 +61,9 @@ Fresh ==
    slots |-> <<NewEntry("Root Entry", KRoot)>>, dirStart |-> 1,
    minifat |-> <<>>, minifatStart |-> ENDC, freeMini |-> <<>>,
    hdr |-> [nfat |-> 1, firstDifat |-> ENDC, ndifat |-> 0, firstMinifat |-> ENDC, nminifat |-> 0,
-            ndir |-> IF DirCount THEN 1 ELSE 0]]
+            ndir |-> IF DirCount THEN 1 ELSE 0],
+   \* data[s + 1] = the SectorLen byte tags of sector s (0 = a zero byte); <<>> when not tracked
+   data |-> IF TrackData THEN <<[i \in 1..SectorLen |-> 0], [i \in 1..SectorLen |-> 0]>> ELSE <<>>]
 
 E(p, i)       == p.slots[i + 1]
 SetE(p, i, e) == [p EXCEPT !.slots[i + 1] = e]
@@ -64,7 +72,13 @@ SetE(p, i, e) == [p EXCEPT !.slots[i + 1] = e]
 (* Allocator (alloc.rs)                                                      *)
 SetFat(p, i, v) == IF i = Len(p.fat) THEN [p EXCEPT !.fat = Append(@, v)]
                    ELSE [p EXCEPT !.fat[i + 1] = v]
-InitSector(p, id) == IF id = p.nsec THEN [p EXCEPT !.nsec = @ + 1] ELSE p
+ZeroSec == [i \in 1..SectorLen |-> 0]
+(* init_sector overwrites the whole sector (zeros for data sectors; table sectors get their own *)
+(* initial contents, which no stream ever reads)                                               *)
+InitSector(p, id) ==
+  LET q == IF id = p.nsec THEN [p EXCEPT !.nsec = @ + 1] ELSE p IN
+  IF ~TrackData THEN q
+  ELSE IF id = Len(q.data) THEN [q EXCEPT !.data = Append(@, ZeroSec)] ELSE [q EXCEPT !.data[id + 1] = ZeroSec]
 
 AppendFatSector(p) ==
   LET id == Len(p.fat)
@@ -85,7 +99,7 @@ AppendFatSector(p) ==
 AllocSector(p) ==
   IF p.free # <<>>
   THEN LET id == p.free[Len(p.free)] IN
-       [p |-> SetFat([p EXCEPT !.free = SubSeq(@, 1, Len(@) - 1)], id, ENDC), id |-> id]
+       [p |-> SetFat(InitSector([p EXCEPT !.free = SubSeq(@, 1, Len(@) - 1)], id), id, ENDC), id |-> id]
   ELSE LET p1 == IF Len(p.fat) % FatPer = 0 THEN AppendFatSector(p) ELSE p
            id == Len(p1.fat)
        IN [p |-> InitSector(SetFat(p1, id, ENDC), id), id |-> id]
@@ -313,6 +327,68 @@ Resize(p, id, newLen) ==
      ELSE IF e.size < Cutoff
      THEN (IF newLen = 0 \/ newLen >= Cutoff THEN FreeMiniChain(q, e.start) ELSE q)
      ELSE (IF newLen < Cutoff THEN FreeChain(q, e.start) ELSE q)
+
+---------------------------------------------------------------------------
+(* Stream bytes (TrackData).  A stream's i-th byte (0-based) lives at        *)
+(* Loc: in the (i div SectorLen)-th sector of its chain, or - below the      *)
+(* cutoff - in the mini sector of its mini chain, which is a MiniLen-byte    *)
+(* slice of the mini stream container's chain.                               *)
+IsMini(e) == e.size < Cutoff
+Loc(p, mini, chain, i) ==
+  IF ~mini THEN <<chain[(i \div SectorLen) + 1], i % SectorLen>>
+  ELSE LET m == chain[(i \div MiniLen) + 1]
+           c == Chain(p, RootStart(p))
+       IN <<c[((m * MiniLen) \div SectorLen) + 1], ((m * MiniLen) % SectorLen) + (i % MiniLen)>>
+ByteAt(p, mini, chain, i) == LET l == Loc(p, mini, chain, i) IN p.data[l[1] + 1][l[2] + 1]
+ChainOfEntry(p, e) == IF IsMini(e) THEN MiniChain(p, e.start) ELSE Chain(p, e.start)
+(* the bytes a reader gets for slot id *)
+ReadStream(p, id) ==
+  LET e == E(p, id)  ch == ChainOfEntry(p, e) IN
+  [i \in 1..e.size |-> ByteAt(p, IsMini(e), ch, i - 1)]
+RECURSIVE PutBytes(_, _, _, _, _)
+(* bytes from..(from + Len(vals) - 1) of the stream laid over `chain` := vals *)
+PutBytes(p, mini, chain, from, vals) ==
+  IF vals = <<>> THEN p
+  ELSE LET l == Loc(p, mini, chain, from) IN
+       PutBytes([p EXCEPT !.data[l[1] + 1][l[2] + 1] = Head(vals)], mini, chain, from + 1, Tail(vals))
+Const(n, v) == [i \in 1..n |-> v]
+
+(* write_data_to_stream with its bytes: `tag` is written to [off, off + n)   *)
+WriteDataT(p, id, off, n, tag) ==
+  LET q == WriteData(p, id, off, n) IN
+  IF ~TrackData \/ n = 0 THEN q
+  ELSE LET e == E(p, id)
+           old == ReadStream(p, id)
+           e2 == E(q, id)
+           ch2 == ChainOfEntry(q, e2)
+           mini2 == IsMini(e2)
+       IN IF e.start # ENDC /\ IsMini(e) /\ ~mini2
+          THEN \* case 2b: the first `off` bytes are copied into the new regular chain, then the buffer
+               PutBytes(PutBytes(q, mini2, ch2, 0, SubSeq(old, 1, off)), mini2, ch2, off, Const(n, tag))
+          ELSE PutBytes(q, mini2, ch2, off, Const(n, tag))
+
+(* resize_stream with its bytes *)
+ResizeT(p, id, newLen) ==
+  LET q == Resize(p, id, newLen) IN
+  IF ~TrackData \/ newLen = 0 THEN q
+  ELSE LET e == E(p, id)
+           old == ReadStream(p, id)
+           e2 == E(q, id)
+           ch2 == ChainOfEntry(q, e2)
+           mini2 == IsMini(e2)
+           oldEnd == CeilDiv(e.size, SectorLen) * SectorLen
+       IN IF e.start = ENDC
+          THEN (IF mini2 /\ Scrub THEN PutBytes(q, TRUE, ch2, 0, Const(newLen, 0)) ELSE q)          \* 1a: mini sectors are not zeroed when allocated; 1b: new sectors are
+          ELSE IF IsMini(e)
+          THEN (IF mini2
+                THEN (IF newLen > e.size /\ Scrub THEN PutBytes(q, TRUE, ch2, e.size, Const(newLen - e.size, 0)) ELSE q)   \* 2b
+                ELSE PutBytes(q, FALSE, ch2, 0, old))                                                  \* 2c: copied, the rest is new zeroed sectors
+          ELSE (IF mini2 THEN PutBytes(q, TRUE, ch2, 0, SubSeq(old, 1, newLen))                       \* 3b
+                ELSE IF newLen > e.size /\ Scrub
+                THEN LET upto == IF newLen < oldEnd THEN newLen ELSE oldEnd IN
+                     PutBytes(q, FALSE, ch2, e.size, Const(upto - e.size, 0))                         \* 3c: the rest of the old final sector
+                ELSE q)
+SetLenT(p, id, n) == IF n = E(p, id).size THEN p ELSE ResizeT(p, id, n)
 
 ---------------------------------------------------------------------------
 (* API level, in terms of (parent slot, name)                                *)
